@@ -41,14 +41,23 @@ def check_spec(acc, spec, tier):
             r = r_api(spec, api)
             if r:
                 variants.append((r[1], "api"))
+    if SC.family_of(spec) in ("F3", "F4") or tier == "thorough":
+        # the other public spellings of a complete enumeration: Solver.find_all() and Solver.solve_all(callback)
+        variants += [(spec, "entry:find_all"), (spec, "entry:solve_all")]
     for vs, vtag in variants:
         cfgs = S.configs_for(vs, tier, full=SC.family_of(spec) in ("F3", "F4", "F7"))
         if vtag == "permuted" and tier == "quick":
             cfgs = cfgs[:2] + cfgs[4:5]
         if vtag == "api":
             cfgs = cfgs[:1] + cfgs[4:5]
+        entry = "solve"
+        if vtag.startswith("entry:"):
+            entry = vtag.split(":")[1]
+            cfgs = cfgs[:1] + cfgs[5:6]
         for cfg in cfgs:
-            o = S.run(vs, cfg, "enumerate")
+            o = S.run(vs, cfg, "enumerate", entry=entry)
+            if entry != "solve":
+                acc.c["nt_entry_runs"] += 1
             acc.c["runs"] += 1
             acc.c["propagator_executions"] += o.stats.get("PROPAGATOR_FILTER_NB", 0)
             acc.c["solutions_compared"] += len(o.solutions)
@@ -70,7 +79,7 @@ def check_spec(acc, spec, tier):
                 extra = sum(1 for k in got if k not in ref)
                 kind = "duplicate" if dup else ("missing" if missing else "extra")
                 acc.violation(f"{SC.con_types(spec)}:{layout(spec)}:{kind}",
-                              SC.witness(vs, cfg, yielded=len(o.solutions), expected=nsol, duplicates=dup, missing=missing,
+                              SC.witness(vs, cfg, entry=entry, yielded=len(o.solutions), expected=nsol, duplicates=dup, missing=missing,
                                          extra=extra, example=[list(k) for k in (set(ref) ^ set(got))][:3]),
                               "the multiset of yielded solutions differs from the brute-force enumeration")
             if not acc.samples and nsol > 1:
@@ -100,6 +109,7 @@ def run(tier, seed):
                 "non-trivial = run on a satisfiable problem",
         "problems": nspecs,
         "permuted_posting_order_runs": acc.c["nt_permuted_runs"],
+        "find_all_and_solve_all_runs": acc.c["nt_entry_runs"],
         "exhaustive": True,
         "bounds": f"tier={tier}: universe U families F1-F4; all posting permutations up to {'4' if tier == 'thorough' else '3'} "
                   "constraints (reversal + rotations beyond); variable order nondeterminism is covered by C07/C09 (EngineMC)",
@@ -107,14 +117,14 @@ def run(tier, seed):
     return finish(PROP, tier, seed, "model_checking", acc, cov,
                   ["relation predicates of mc/contracts.py; brute force over the cartesian product of the shared domains",
                    "runs aborted by a step budget / IndexError / invalid heuristic answer are judged by C04 / C16"],
-                  t0, vacuity={"nt_runs_on_satisfiable": 1000, "nt_permuted_runs": 100})
+                  t0, vacuity={"nt_runs_on_satisfiable": 1000, "nt_permuted_runs": 100, "nt_entry_runs": 20})
 
 
 def replay(entry):
     rc = 0
     for w in entry["witnesses"]:
         for _ in range(2):
-            o = S.run(w["spec"], tuple(w["cfg"]), "enumerate")
+            o = S.run(w["spec"], tuple(w["cfg"]), "enumerate", entry=w.get("entry", "solve"))
             ok = Counter(o.solutions) == Counter(U.brute(w["spec"])) and not o.abort
             print("replay:", w["spec"], w["cfg"], "->", "no violation" if ok else ("VIOLATION", sorted(o.solutions), o.abort))
             if not ok:
